@@ -1,15 +1,22 @@
 /* C18 - each proxy client gets every captured frame, filtered to its services, in order.
  * Real units (textually included): daemon/proxyd.c, src/proxy-msg.c; linked: src/inout.c, src/misc.c.
- * Environment: models/c19_io.c (capture device delivering one symbolic frame per read, send() log).
+ * Environment: models/c19_io.c (capture device delivering one symbolic frame per read, update_services script, send() log).
  *
- * The property is decomposed into step contracts over an explicit queue invariant (common header, inv_queue):
- *   capture step   vbi_proxyd_forward_data   : the captured frame is appended once, for exactly the subscribed clients
- *   delivery step  vbi_proxyd_send_sliced + vbi_proxy_queue_release_sliced (as vbi_proxyd_handle_client_sockets pairs them):
- *                  the bytes given to send() are the head frame of THAT client filtered to its granted services, with the
- *                  capture time stamp; its cursor moves on by exactly one frame; nobody else's cursor moves
- * and a short SEQ run from a fresh subscription against a shadow model. */
+ * The property is decomposed into step contracts over an explicit queue invariant (common header inv_queue, plus
+ * inv18 below: no cursor survives the closing of the device) and SEQ runs against a shadow model:
+ *   h_fwd      capture step   vbi_proxyd_forward_data: the captured frame is appended once, referenced by exactly the clients that
+ *                             will walk onto it
+ *   h_deliver  delivery step  vbi_proxyd_send_sliced + vbi_proxy_queue_release_sliced (as vbi_proxyd_handle_client_sockets pairs
+ *                             them): the message is exactly the frame at THAT client's cursor, filtered to its granted services,
+ *                             in line order, with the capture time stamp; its cursor moves on by exactly one frame
+ *   h_svc      service step   vbi_proxyd_take_service_req: the device is asked for the union of all clients' requests, is open
+ *                             exactly while something is granted, grants are subsets of requests, nobody else's queue moves
+ *   h_seq      SEQ            event sequences (capture / writable / disconnect / SERVICE_REQ / device revokes services) from
+ *                             a fresh subscription; the event ORDER and the service pattern are concrete (grid), all payload is
+ *                             symbolic */
 #include "verif.h"
 #include "c19_io.h"
+#include <stdlib.h>
 
 #define vbi_proxy_msg_logger c19_real_msg_logger
 #include "src/proxy-msg.c"
@@ -17,9 +24,49 @@
 void vbi_proxy_msg_logger(int level, int clnt_fd, int errCode, const char *pText, ...)
 { (void) level; (void) clnt_fd; (void) errCode; (void) pText; }
 
+/* The sliced indication is allocated with its actual size (24 + 64 n bytes) and filled through a VBIPROXY_MSG pointer (992 byte
+ * type).  CBMC checks `p_msg->body' (984 bytes) as a whole against the object and reports "pointer outside object bounds"; in
+ * cbmc 6 that check is FATAL: every later property comes back UNKNOWN (this is what made the first version of seq_schedule
+ * undecided).  Solver build only: while the harness is inside vbi_proxyd_send_sliced (C18_in_send) a message buffer is allocated
+ * with the size of the TYPE, the size the daemon asked for is recorded, and the 8 bytes behind it carry a guard pattern that the
+ * delivery step checks (so a line written behind the allocation is still found).  The native replay build uses the real
+ * malloc under ASan. */
+#ifdef VERIF_CBMC
+static int C18_in_send; static size_t C18_msg_asked; static uint8_t *C18_msg_obj;
+#define C18_GUARD 0xA5
+static void *c18_malloc(size_t n)
+{
+  if (C18_in_send) {
+    uint8_t *p = malloc(sizeof(VBIPROXY_MSG) + 8);
+    unsigned i;
+    C18_msg_asked = n; C18_msg_obj = p;
+    __CPROVER_assert(n + 8 <= sizeof(VBIPROXY_MSG) + 8, "VP:msg_alloc_within_model_bound");
+    for (i = 0; i < 8; i++) p[n + i] = C18_GUARD;
+    return p;
+  }
+  return malloc(n);
+}
+static int c18_guard_ok(void)
+{
+  unsigned i; int ok = 1;
+  for (i = 0; i < 8; i++) ok &= C18_msg_obj[C18_msg_asked + i] == C18_GUARD;
+  return ok;
+}
+#define C18_SEND_BEGIN() (C18_in_send = 1)
+#define C18_SEND_END() (C18_in_send = 0)
+#define malloc(n) c18_malloc(n)
+#else
+#define C18_SEND_BEGIN() ((void) 0)
+#define C18_SEND_END() ((void) 0)
+static int c18_guard_ok(void) { return 1; }
+#endif
+
 #define main proxyd_main
 #include "daemon/proxyd.c"
 #undef main
+#ifdef VERIF_CBMC
+#undef malloc
+#endif
 
 #ifndef W_MAXLINES
 #define W_MAXLINES 3
@@ -52,7 +99,21 @@ static void w_frame(void)
   for (i = 0; i < C19_MAXLINES; i++) in_bytes(C19.frame_data[i], 64);
 }
 
+/* subscribed: the client is granted something.  takes_new_frame: the clients a new frame is queued for - the subscribed ones and
+ * those that still have frames pending (their cursor walks onto the new frame; the device may have revoked all their services in
+ * a re-computation caused by somebody else, see seq_revoke) */
 static int subscribed(const PROXY_CLNT *c) { return c->dev_idx == 0 && c->state == REQ_STATE_FORWARD && c->all_services != 0; }
+static int takes_new_frame(const PROXY_CLNT *c) { return c->dev_idx == 0 && c->state == REQ_STATE_FORWARD && (c->all_services != 0 || c->p_sliced != NULL); }
+
+/* Q plus: a closed device has no queue, so no client of it may still hold a cursor (the buffers are freed) */
+static int inv18(void)
+{
+  unsigned i; int ok = inv_queue();
+  if (proxy.dev[0].p_capture == NULL)
+    for (i = 0; i < W_ncl; i++)
+      if (w_alive(i) && W_cl[i]->dev_idx == 0) ok &= W_cl[i]->p_sliced == NULL;
+  return ok;
+}
 
 /* =====================================================================================================
  * capture step: vbi_proxyd_forward_data(0) from every well-formed queue state (W_NBUF buffers, NQ queued,
@@ -61,7 +122,7 @@ static int subscribed(const PROXY_CLNT *c) { return c->dev_idx == 0 && c->state 
 V_HARNESS(h_fwd)
 {
   PROXY_DEV *d = &proxy.dev[0]; PROXY_QUEUE *q_old[4], *tail, *p; struct clnt_obs o0[3], o1[3];
-  unsigned i, k, nsub = 0, ns0 = 0, ns1 = 0; int n_exp, forced;
+  unsigned i, k, nref = 0, ns0 = 0, ns1 = 0; int n_exp, forced;
   V_INIT();
   w_init();
   w_device(1);
@@ -71,7 +132,7 @@ V_HARNESS(h_fwd)
   w_queue();
   w_frame();
   w_assume_inv();
-  for (i = 0; i < NCL; i++) { obs_clnt(&o0[i], W_cl[i]); if (subscribed(W_cl[i])) nsub++; }
+  for (i = 0; i < NCL; i++) { obs_clnt(&o0[i], W_cl[i]); if (takes_new_frame(W_cl[i])) nref++; }
   for (k = 0, p = d->p_sliced; k < 4; k++) { q_old[k] = p; if (p) { ns0 = k + 1; p = p->p_next; } }
   forced = (d->p_free == NULL);                                         /* no free buffer: the oldest frame is dropped by force */
   n_exp = C19.frame_lines; if (n_exp < 0) n_exp = 0; if (n_exp > C19_MAXLINES) n_exp = C19_MAXLINES; if (n_exp > W_MAXLINES) n_exp = W_MAXLINES;
@@ -81,13 +142,13 @@ V_HARNESS(h_fwd)
   w_dump("after forward_data");
 
   V_ASSERT(c19_locks_held() == 0, "fwd_no_lock_left_held");
-  V_ASSERT(inv_queue(), "fwd_inv_queue");
+  V_ASSERT(inv18(), "fwd_inv_queue");
   for (k = 0, p = d->p_sliced, tail = NULL; k < 4; k++) if (p) { ns1 = k + 1; tail = p; p = p->p_next; }
   for (i = 0; i < NCL; i++) obs_clnt(&o1[i], W_cl[i]);
-  if (C19.frame_ret > 0 && nsub > 0) {
-    /* the frame is queued once, at the tail, referenced by exactly the subscribed clients */
+  if (C19.frame_ret > 0 && nref > 0) {
+    /* the frame is queued once, at the tail, referenced by exactly the clients that will walk onto it */
     V_ASSERT(ns1 == ns0 + 1 - (forced ? 1 : 0) && tail != NULL, "fwd_one_frame_appended");
-    V_ASSERT(tail->ref_count >= nsub, "fwd_referenced_by_subscribers");        /* exactly: by every client whose cursor is at or before it (fwd_inv_queue) */
+    V_ASSERT(tail->ref_count == nref, "fwd_referenced_by_subscribers");
     V_ASSERT(tail->line_count == n_exp && dbl_bits(tail->timestamp) == dbl_bits(C19.frame_ts), "fwd_frame_header");
     for (k = 0; k < W_MAXLINES; k++)
       if ((int) k < n_exp) V_ASSERT(0 == memcmp(&tail->lines[k], C19.frame_data[k], 64), "fwd_frame_lines");
@@ -113,38 +174,48 @@ V_HARNESS(h_fwd)
 
 /* =====================================================================================================
  * delivery step: client ACT is idle with a pending frame and its socket is writable: vbi_proxyd_send_sliced +
- * vbi_proxy_queue_release_sliced exactly as vbi_proxyd_handle_client_sockets pairs them (proxyd.c:2479-2493).
- * Shadow: the head frame of that client, filtered to all_services, with the capture time stamp.
+ * vbi_proxy_queue_release_sliced exactly as vbi_proxyd_handle_client_sockets pairs them (proxyd.c:2483-2497).
+ * Queue: NQ frames of W_MAXLINES-line buffers, contents symbolic; the cursors CUR0, CUR1 are concrete (grid), LC = number of
+ * lines in the frame at the acting client's cursor (concrete: it is the size of the message the daemon allocates).
+ * Shadow: that frame, the lines whose id intersects all_services, in order, with the capture time stamp.
+ * The socket takes nothing right now, so the message stays in the write buffer where it is inspected.
  * ===================================================================================================== */
-V_HARNESS(h_send)
+#ifndef LC
+#define LC W_MAXLINES
+#endif
+V_HARNESS(h_deliver)
 {
   PROXY_DEV *d = &proxy.dev[0]; PROXY_CLNT *a; PROXY_QUEUE *f, *nxt; struct clnt_obs o0[3], o1[3];
-  unsigned i, n_sel = 0; int s0, s1; vbi_bool blocked = FALSE, ok; uint32_t ref0, len_exp;
+  unsigned i, k, m, n_sel = 0; int sel[W_MAXLINES]; vbi_bool blocked = FALSE, ok; uint32_t ref0, len_exp; uint8_t fr0[W_MAXLINES][64]; uint64_t ts0;
   V_INIT();
   w_init();
   w_device(1);
-  for (i = 0; i < NCL; i++) w_client((i != ACT && i == NCL - 1) ? BDEV : 0, 0);
+  for (i = 0; i < NCL; i++) w_client(0, 0);
   w_link();
   w_queue();
   w_assume_inv();
   a = W_cl[ACT];
-  V_ASSUME(a->p_sliced != NULL && a->io.writeLen == 0);                  /* idle, frame pending */
+  V_ASSUME(a->p_sliced != NULL);
+  a->state = REQ_STATE_FORWARD; a->io.writeLen = 0; a->io.writeOff = 0; a->io.pWriteBuf = NULL; a->io.readLen = 0; a->io.readOff = 0;   /* idle, frame pending */
   a->all_services &= ~(unsigned) (VBI_SLICED_VBI_625 | VBI_SLICED_VBI_525);   /* no raw forwarding (masked, not assumed: the message size must fold to a constant) */
-  V_ASSUME(a->vbi_count[0] >= 0 && a->vbi_count[1] >= 0 && a->vbi_count[0] + a->vbi_count[1] >= W_MAXLINES);   /* line range fixed at subscription covers the device's */
+  V_ASSUME(a->vbi_count[0] >= 0 && a->vbi_count[0] <= 64 && a->vbi_count[1] >= 0 && a->vbi_count[1] <= 64 && a->vbi_count[0] + a->vbi_count[1] >= W_MAXLINES);   /* line range fixed at subscription covers the device's */
   f = a->p_sliced; nxt = f->p_next; ref0 = f->ref_count;
-#ifdef LC      /* number of lines in the frame, concrete: it is the size of the message the daemon allocates */
   f->line_count = LC;
-#endif
-  /* shadow filter, written without symbolic array indices (W_MAXLINES <= 2) */
-  s0 = f->line_count > 0 && (f->lines[0].id & a->all_services) != 0;
-  s1 = W_MAXLINES > 1 && f->line_count > 1 && (f->lines[W_MAXLINES > 1 ? 1 : 0].id & a->all_services) != 0;
-  n_sel = (unsigned) s0 + (unsigned) s1;
+  memcpy(&ts0, &f->timestamp, 8);
+  for (k = 0; k < W_MAXLINES; k++) memcpy(fr0[k], &f->lines[k], 64);
+  /* shadow filter, written without symbolic array indices */
+  for (k = 0; k < W_MAXLINES; k++) {
+    uint32_t id; memcpy(&id, fr0[k], 4);
+    sel[k] = (int) k < LC && (id & a->all_services) != 0;
+    n_sel += (unsigned) sel[k];
+  }
   for (i = 0; i < NCL; i++) obs_clnt(&o0[i], W_cl[i]);
-  C19.send_ret[0] = 0;            /* the socket takes nothing right now: the message stays in the write buffer, where it is inspected
-                                     (copying it out through the send() log costs > 5 GB in the solver) */
+  C19.send_ret[0] = 0;
 
-  /* ---- proxyd.c:2482-2487 ---- */
+  /* ---- proxyd.c:2486-2491 ---- */
+  C18_SEND_BEGIN();
   ok = vbi_proxyd_send_sliced(a, &blocked);
+  C18_SEND_END();
   if (ok) {
     pthread_mutex_lock(&proxy.dev[a->dev_idx].queue_mutex);
     vbi_proxy_queue_release_sliced(a);
@@ -155,37 +226,132 @@ V_HARNESS(h_send)
   V_ASSERT(C19.send_calls == 1 && C19.sent[0].fd == o0[ACT].sock_fd, "send_one_write_to_own_socket");
   len_exp = (uint32_t) (sizeof(VBIPROXY_MSG_HEADER) + VBIPROXY_SLICED_IND_SIZE(n_sel, 0));
   V_ASSERT(a->io.writeLen == len_exp && a->io.writeOff == 0 && a->io.freeWriteBuf && a->io.pWriteBuf != NULL && C19.sent[0].len_asked == len_exp, "send_length");
-  { const VBIPROXY_MSG *pm = a->io.pWriteBuf;
-    V_ASSERT(ntohl(pm->head.len) == len_exp && ntohl(pm->head.type) == MSG_TYPE_SLICED_IND, "send_header");
-    V_ASSERT(dbl_bits(pm->body.sliced_ind.timestamp) == dbl_bits(f->timestamp), "send_capture_timestamp");
-    V_ASSERT(pm->body.sliced_ind.sliced_lines == n_sel && pm->body.sliced_ind.raw_lines == 0, "send_line_count");
-    if (s0) V_ASSERT(0 == memcmp(&pm->body.sliced_ind.u.sliced[0], &f->lines[0], 64), "send_exactly_the_granted_lines_in_order");
-    if (s0 && s1) V_ASSERT(0 == memcmp(&pm->body.sliced_ind.u.sliced[1], &f->lines[W_MAXLINES > 1 ? 1 : 0], 64), "send_exactly_the_granted_lines_in_order");
-    if (!s0 && s1) V_ASSERT(0 == memcmp(&pm->body.sliced_ind.u.sliced[0], &f->lines[W_MAXLINES > 1 ? 1 : 0], 64), "send_exactly_the_granted_lines_in_order");
+  V_ASSERT(c18_guard_ok(), "send_nothing_written_behind_the_allocation");
+  { const uint8_t *pm = (const uint8_t *) a->io.pWriteBuf; uint64_t ts; uint32_t nl, nr; unsigned pos = 0;
+    memcpy(&ts, pm + 8, 8); memcpy(&nl, pm + 16, 4); memcpy(&nr, pm + 20, 4);
+    V_ASSERT(be32(pm) == len_exp && be32(pm + 4) == MSG_TYPE_SLICED_IND, "send_header");
+    V_ASSERT(ts == ts0, "send_capture_timestamp");
+    V_ASSERT(nl == n_sel && nr == 0, "send_line_count");
+    /* the k-th granted line of the frame is the k-th line of the message */
+    for (k = 0; k < W_MAXLINES; k++) {
+      if (!sel[k]) continue;
+      for (m = 0; m <= k; m++)
+        if (m == pos) V_ASSERT(0 == memcmp(pm + 24 + 64 * m, fr0[k], 64), "send_exactly_the_granted_lines_in_order");
+      pos++;
+    }
   }
+  /* the queued frame itself is not modified */
+  for (k = 0; k < W_MAXLINES; k++) V_ASSERT(0 == memcmp(&f->lines[k], fr0[k], 64), "send_frame_unmodified");
   /* cursor moves on by exactly one frame, the frame loses exactly this reference */
   V_ASSERT(a->p_sliced == nxt, "send_cursor_advances_one");
   for (i = 0; i < NCL; i++) {
     obs_clnt(&o1[i], W_cl[i]);
     if (i != ACT) V_ASSERT(same_clnt(&o0[i], &o1[i]), "send_other_clients_untouched");
   }
-  if (ref0 > 1) { V_ASSERT(f->ref_count == ref0 - 1 && q_pos_is(d->p_sliced, f, 0) + 1 >= 1, "send_frame_kept_for_others"); V_REACH("shared"); }
-  else { V_ASSERT(d->p_free == f, "send_last_reader_frees_frame"); V_REACH("freed"); }
-  V_ASSERT(inv_queue(), "send_inv_queue");
-  if (n_sel > 0 && n_sel < (unsigned) f->line_count) V_REACH("filtered");
+  V_ASSERT(o1[ACT].all_services == o0[ACT].all_services && o1[ACT].state == o0[ACT].state, "send_own_subscription_untouched");
+  if (ref0 > 1) { V_ASSERT(f->ref_count == ref0 - 1 && q_pos_is(d->p_sliced, f, 0), "send_frame_kept_for_others"); V_REACH("shared"); }
+  else { V_ASSERT(d->p_free == f && d->p_sliced == nxt, "send_last_reader_frees_frame"); V_REACH("freed"); }
+  V_ASSERT(inv18(), "send_inv_queue");
+  if (n_sel > 0 && n_sel < (unsigned) LC) V_REACH("filtered");
+  if (n_sel == (unsigned) LC) V_REACH("all");
   free(a->io.pWriteBuf); a->io.pWriteBuf = NULL;
   V_END();
 }
 
 /* =====================================================================================================
- * SEQ: 2 subscribed clients, an empty queue of W_NBUF buffers, k = 4 events E0..E3 (build time: the event ORDER is
- * the schedule and is enumerated on the grid, all data is symbolic):
- *   1 frame captured (<= W_MAXLINES symbolic lines, symbolic time stamp)   -> vbi_proxyd_forward_data
- *   2/3 client 0/1 idle and writable -> the forwarding loop of vbi_proxyd_handle_client_sockets (proxyd.c:2479-2493)
- *   4/5 client 0/1 disconnects       -> vbi_proxyd_close + unlink
- * Shadow model: per client the list of frames captured while it was connected and not yet delivered (the oldest is
- * dropped for the clients still waiting for it when the daemon runs out of buffers).  Assert: the messages handed to
- * send() for client i are, in capture order, exactly once, those frames filtered to all_services with the capture time.
+ * service step: vbi_proxyd_take_service_req(a, services, STRICTV, ..) as CONNECT_REQ / SERVICE_REQ call it (the acting client is
+ * FORWARD with an empty queue: SERVICE_REQ flushed it, a new connection has none), services symbolic, from every invariant state
+ * (device open with NQ queued frames / closed; the other client symbolic), the device granting an arbitrary subset per call.
+ *   - the device is asked for exactly the union of what the clients of that device ask for (every strictness level)
+ *   - a client is granted a subset of what it asks for; the device's service set is the union of the grants
+ *   - the device is open afterwards iff something is granted (opened at most once, closed at most once)
+ *   - nobody else's cursor moves while the device stays open; when it closes, no cursor survives (the buffers are freed)
+ * ===================================================================================================== */
+#ifndef STRICTV
+#define STRICTV 0
+#endif
+V_HARNESS(h_svc)
+{
+  PROXY_DEV *d = &proxy.dev[0]; PROXY_CLNT *a; struct clnt_obs o0[3], o1[3]; struct env_obs e0, e1;
+  unsigned i, k, new_services, asked_union = 0, grant_union = 0, own_asked = 0; vbi_bool r; int was_open;
+  static char errbuf[VBIPROXY_ERROR_STR_MAX_LENGTH];
+  V_INIT();
+  w_init();
+  w_device(DEVOPEN);
+  for (i = 0; i < NCL; i++) w_client((i != ACT && i == NCL - 1) ? BDEV : 0, 0);
+  w_link();
+  w_queue();
+  w_assume_inv();
+  a = W_cl[ACT];
+  new_services = in_u32();
+  V_ASSUME(a->state == REQ_STATE_FORWARD && a->p_sliced == NULL);
+  V_ASSUME(inv18());
+  /* a device that is closed has nothing granted to anybody (established by this step and by upd_services) */
+  if (!DEVOPEN) for (i = 0; i < NCL; i++) V_ASSUME(W_cl[i]->dev_idx != 0 || W_cl[i]->all_services == 0);
+  was_open = d->p_capture != NULL;
+  for (i = 0; i < NCL; i++) obs_clnt(&o0[i], W_cl[i]);
+  obs_env(&e0);
+
+  w_dump("before service request");
+  r = vbi_proxyd_take_service_req(a, new_services, STRICTV, errbuf);
+  w_dump("after service request");
+
+  obs_env(&e1);
+  for (i = 0; i < NCL; i++) obs_clnt(&o1[i], W_cl[i]);
+  /* the request table of the acting client: the new services moved to the given level, nothing else changed; after the grant
+     the level holds no more than what was asked */
+  for (k = 0; k < 4; k++) {
+    if ((int) k == STRICTV - VBI_MIN_STRICT) V_ASSERT((o1[ACT].services[k] & ~(o0[ACT].services[k] | new_services)) == 0, "svc_request_level");
+    else V_ASSERT(o1[ACT].services[k] == (o0[ACT].services[k] & ~new_services), "svc_request_moved_from_other_levels");
+    own_asked |= (k == (unsigned) (STRICTV - VBI_MIN_STRICT)) ? (o0[ACT].services[k] | new_services) : (o0[ACT].services[k] & ~new_services);
+  }
+  for (i = 0; i < NCL; i++) {
+    unsigned asked = 0;
+    if (i == ACT) asked = own_asked; else for (k = 0; k < 4; k++) asked |= o0[i].services[k];
+    if (i != ACT) V_ASSERT(o1[i].services[0] == o0[i].services[0] && o1[i].services[1] == o0[i].services[1] && o1[i].services[2] == o0[i].services[2] &&
+                           o1[i].services[3] == o0[i].services[3] && o1[i].state == o0[i].state, "svc_other_requests_untouched");
+    if (o1[i].dev_idx == 0 && o1[i].state == REQ_STATE_FORWARD) {
+      if (d->p_capture != NULL || was_open || e1.n_open != e0.n_open) {     /* a re-computation ran */
+        V_ASSERT((o1[i].all_services & ~asked) == 0, "svc_grant_is_subset_of_request");
+        asked_union |= asked; grant_union |= o1[i].all_services;
+      }
+    } else V_ASSERT(o1[i].all_services == o0[i].all_services, "svc_other_device_untouched");
+  }
+  if (e1.upd_calls != e0.upd_calls) V_ASSERT(C19.upd_services_union == asked_union, "svc_device_asked_for_union_of_requests");
+  V_ASSERT(e1.n_open - e0.n_open <= 1 && e1.n_delete - e0.n_delete <= 1 && (was_open ? e1.n_open == e0.n_open : 1), "svc_device_opened_and_closed_at_most_once");
+  if (d->p_capture != NULL) {
+    V_ASSERT(d->all_services == grant_union && grant_union != 0, "svc_device_open_for_union_of_grants");
+    V_ASSERT(c19_device_is_open(), "svc_device_handle_live");
+    for (i = 0; i < NCL; i++) if (i != ACT) V_ASSERT(o1[i].p_sliced == o0[i].p_sliced, "svc_other_cursors_untouched");
+    V_REACH("open");
+  } else {
+    V_ASSERT(!c19_device_is_open(), "svc_device_closed_when_nothing_granted");
+    if (was_open || e1.n_open != e0.n_open) V_ASSERT(grant_union == 0 || !r, "svc_closed_only_without_grants");
+    V_REACH("closed");
+  }
+  if (r && new_services != 0) V_ASSERT((o1[ACT].all_services & new_services) != 0, "svc_confirmed_only_if_something_new_granted");
+  V_ASSERT(o1[ACT].p_sliced == NULL || d->p_capture != NULL, "svc_own_cursor");
+  V_ASSERT(inv_dev(0) && inv_dev(1), "svc_inv_device");
+  V_ASSERT(inv18(), "svc_inv_queue");
+  V_END();
+}
+
+/* =====================================================================================================
+ * SEQ: NCL (2..3) connected clients in FORWARD, an empty queue of W_NBUF buffers, up to 8 events E0..E7.  The event ORDER, the
+ * service sets (SVC0..2, LID0..2 = ids of the lines of every frame, SREQ = services of a SERVICE_REQ) and which re-computation
+ * calls the device answers with "nothing" (REVOKE, bit k = k-th vbi_capture_update_services call of the run) are build-time
+ * (grid); frame payload, time stamps and the clock are symbolic.  The pointer structure of the run is therefore concrete
+ * (a symbolic schedule or subscription merges pointer states: the first version needed > 20 GB for 4 events).
+ *   1    frame captured (W_MAXLINES lines)                          -> vbi_proxyd_forward_data
+ *   9    the device has nothing (read returns 0)                    -> vbi_proxyd_forward_data
+ *   2/3/8 client 0/1/2 writable -> what vbi_proxyd_handle_client_sockets does for a writable socket (proxyd.c:2437-2499)
+ *   4/5  client 0/1 disconnects -> vbi_proxyd_close + unlink + service re-computation (proxyd.c:2520-2547)
+ *   6/7  client 0/1 sends SERVICE_REQ(reset, SREQ, strict 0)        -> vbi_proxyd_take_message
+ * Shadow model: per client the list of frames not yet delivered: a frame is appended for the clients that are subscribed (or
+ * still have frames pending) when it is captured; when the daemon has no free buffer the oldest frame is given up by the clients
+ * still waiting for it; a SERVICE_REQ drops the sender's own list; the closing of the device drops all lists.
+ * Assert: the messages handed to send() for client i are, in capture order, exactly once, those frames, each filtered to the
+ * services granted at delivery, with the capture time stamp; replies first; nothing else is sent.
  * ===================================================================================================== */
 #ifndef E0
 #define E0 1
@@ -199,58 +365,113 @@ V_HARNESS(h_send)
 #ifndef E3
 #define E3 3
 #endif
-#define SQ_F 4
-#ifndef SQ_LINES
-#define SQ_LINES 1
+#ifndef E4
+#define E4 0
 #endif
+#ifndef E5
+#define E5 0
+#endif
+#ifndef E6
+#define E6 0
+#endif
+#ifndef E7
+#define E7 0
+#endif
+#ifndef SVC0
+#define SVC0 0x3
+#endif
+#ifndef SVC1
+#define SVC1 0x4
+#endif
+#ifndef SVC2
+#define SVC2 0x7
+#endif
+#ifndef LID0
+#define LID0 0x2
+#endif
+#ifndef LID1
+#define LID1 0x4
+#endif
+#ifndef LID2
+#define LID2 0x1
+#endif
+#ifndef SREQ
+#define SREQ 0x4
+#endif
+#ifndef REVOKE
+#define REVOKE 0
+#endif
+#define SQ_F 8
 struct sq_frame { int n; uint64_t ts; uint8_t data[W_MAXLINES][64]; };
 static struct sq_frame SQ_fr[SQ_F]; static unsigned SQ_nf;
-static int SQ_pend[2][SQ_F]; static unsigned SQ_np[2];          /* shadow: frame indices pending per client, capture order */
-static int SQ_conn[2];
+static int SQ_pend[3][SQ_F]; static unsigned SQ_np[3];          /* shadow: frame indices pending per client, capture order */
+static int SQ_conn[3];
 
-static void sq_capture(void)
+static void sq_drop_all(void) { unsigned c; for (c = 0; c < 3; c++) SQ_np[c] = 0; }
+
+static void sq_capture(int have_frame)
 {
-  struct sq_frame *f = &SQ_fr[SQ_nf]; unsigned i, c, queued = 0, has_free;
+  struct sq_frame *f = &SQ_fr[SQ_nf]; unsigned i, c, has_free; static const uint32_t lid[3] = { LID0, LID1, LID2 };
+  if (proxy.dev[0].p_capture == NULL) return;             /* a closed device is not in the daemon's select() set */
   w_frame();
-  C19.frame_ret = 1; C19.frame_lines = SQ_LINES;        /* concrete line count: it is the size of the message buffer the daemon allocates */
-  f->n = C19.frame_lines; if (f->n < 0) f->n = 0; if (f->n > C19_MAXLINES) f->n = C19_MAXLINES; if (f->n > W_MAXLINES) f->n = W_MAXLINES;
+  C19.frame_ret = have_frame ? 1 : 0; C19.frame_lines = W_MAXLINES;        /* concrete line count: it is the size of the message buffer the daemon allocates */
+  for (i = 0; i < W_MAXLINES; i++) memcpy(C19.frame_data[i], &lid[i % 3], 4);
+  f->n = W_MAXLINES;
   memcpy(&f->ts, &C19.frame_ts, 8);
   for (i = 0; i < W_MAXLINES; i++) memcpy(f->data[i], C19.frame_data[i], 64);
   /* shadow: out of buffers -> the oldest queued frame is given up by the clients still waiting for it */
   has_free = proxy.dev[0].p_free != NULL;
-  (void) queued;
   if (!has_free) {
     int oldest = -1;
-    for (c = 0; c < 2; c++) if (SQ_conn[c] && SQ_np[c] > 0 && (oldest < 0 || SQ_pend[c][0] < oldest)) oldest = SQ_pend[c][0];
-    for (c = 0; c < 2; c++)
-      if (SQ_conn[c] && SQ_np[c] > 0 && SQ_pend[c][0] == oldest) { for (i = 1; i < SQ_np[c]; i++) SQ_pend[c][i - 1] = SQ_pend[c][i]; SQ_np[c]--; }
+    for (c = 0; c < NCL; c++) if (SQ_conn[c] && SQ_np[c] > 0 && (oldest < 0 || SQ_pend[c][0] < oldest)) oldest = SQ_pend[c][0];
+    for (c = 0; c < NCL; c++)
+      if (SQ_conn[c] && SQ_np[c] > 0 && SQ_pend[c][0] == oldest) { for (i = 1; i < SQ_np[c]; i++) SQ_pend[c][i - 1] = SQ_pend[c][i]; SQ_np[c]--; V_REACH("overflow"); }
   }
+  if (have_frame)
+    for (c = 0; c < NCL; c++) if (SQ_conn[c] && (W_cl[c]->all_services != 0 || SQ_np[c] > 0)) SQ_pend[c][SQ_np[c]++] = (int) SQ_nf;
   vbi_proxyd_forward_data(0);
-  for (c = 0; c < 2; c++) if (SQ_conn[c] && W_cl[c]->all_services != 0) SQ_pend[c][SQ_np[c]++] = (int) SQ_nf;
-  SQ_nf++;
+  if (have_frame) SQ_nf++;
 }
 
 static void sq_writable(unsigned c)
 {
-  PROXY_CLNT *req = W_cl[c]; vbi_bool io_blocked = FALSE; unsigned s0 = C19.send_calls, j, k, s;
+  PROXY_CLNT *req = W_cl[c]; vbi_bool io_blocked = FALSE; unsigned s0 = C19.send_calls, j, k, s, n_reply = 0; uint32_t reply_type = 0;
   if (!SQ_conn[c]) return;
-  /* ---- proxyd.c:2479-2493 ---- */
-  while ((req->p_sliced != NULL) && (io_blocked == FALSE)) {
-    if (vbi_proxyd_send_sliced(req, &io_blocked)) {
-      pthread_mutex_lock(&proxy.dev[req->dev_idx].queue_mutex);
-      vbi_proxy_queue_release_sliced(req);
-      pthread_mutex_unlock(&proxy.dev[req->dev_idx].queue_mutex);
-    } else { vbi_proxyd_close(req, FALSE); io_blocked = TRUE; }
+  if (!vbi_proxy_msg_write_idle(&req->io)) { n_reply = 1; reply_type = ntohl(req->msg_buf.head.type); }
+  /* ---- proxyd.c:2437-2499, socket in the write set ---- */
+  if (!vbi_proxy_msg_write_idle(&req->io)) {
+    if (vbi_proxy_msg_handle_write(&req->io, &io_blocked) == FALSE) vbi_proxyd_close(req, FALSE);
   }
-  /* every pending frame, once, in capture order, filtered, with its time stamp */
-  V_ASSERT(C19.send_calls - s0 == SQ_np[c] && req->p_sliced == NULL, "seq_all_pending_frames_sent_once");
+  if (req->state == REQ_STATE_WAIT_CLOSE) vbi_proxyd_close(req, FALSE);
+  else if (vbi_proxy_msg_is_idle(&req->io)) {
+    if (req->chn_state.token_state == REQ_TOKEN_RECLAIM || req->chn_state.token_state == REQ_TOKEN_GRANT || req->chn_status_ind) {
+      V_ASSERT(0, "seq_no_channel_indication_in_this_run");               /* no channel events in the schedule */
+    } else {
+      while ((req->p_sliced != NULL) && (io_blocked == FALSE)) {
+        vbi_bool sent;
+        C18_SEND_BEGIN(); sent = vbi_proxyd_send_sliced(req, &io_blocked); C18_SEND_END();
+        if (sent) {
+          pthread_mutex_lock(&proxy.dev[req->dev_idx].queue_mutex);
+          vbi_proxy_queue_release_sliced(req);
+          pthread_mutex_unlock(&proxy.dev[req->dev_idx].queue_mutex);
+        } else { vbi_proxyd_close(req, FALSE); io_blocked = TRUE; }
+      }
+    }
+  }
+  /* the pending reply first, then every pending frame, once, in capture order, filtered, with its time stamp */
+  V_ASSERT(req->state == REQ_STATE_FORWARD && req->io.writeLen == 0, "seq_connection_kept");
+  V_ASSERT(C19.send_calls - s0 == n_reply + SQ_np[c] && req->p_sliced == NULL, "seq_all_pending_frames_sent_once");
+  if (n_reply) {
+    V_ASSERT(s0 < C19_SENDLOG && C19.sent[s0].fd == req->io.sock_fd && be32(C19.sent[s0].bytes + 4) == reply_type, "seq_reply_first");
+    V_REACH("reply");
+  }
   for (j = 0; j < SQ_F; j++) {
-    const struct sq_frame *f; const uint8_t *m; unsigned nsel = 0; uint64_t ts; uint32_t nl;
+    const struct sq_frame *f; const uint8_t *m; unsigned nsel = 0; uint64_t ts; uint32_t nl, nr;
     if (j >= SQ_np[c]) continue;
-    s = s0 + j; f = &SQ_fr[SQ_pend[c][j]];
+    s = s0 + n_reply + j; f = &SQ_fr[SQ_pend[c][j]];
     V_ASSERT(s < C19_SENDLOG && C19.sent[s].fd == req->io.sock_fd, "seq_sent_to_own_socket");
     m = C19.sent[s].bytes;
-    memcpy(&ts, m + 8, 8); memcpy(&nl, m + 16, 4);
+    memcpy(&ts, m + 8, 8); memcpy(&nl, m + 16, 4); memcpy(&nr, m + 20, 4);
     V_ASSERT(be32(m + 4) == MSG_TYPE_SLICED_IND && ts == f->ts, "seq_capture_order_and_timestamp");
     for (k = 0; k < W_MAXLINES; k++) {
       uint32_t id; memcpy(&id, f->data[k], 4);
@@ -259,49 +480,87 @@ static void sq_writable(unsigned c)
         nsel++;
       }
     }
-    V_ASSERT(nl == nsel && C19.sent[s].len_asked == sizeof(VBIPROXY_MSG_HEADER) + VBIPROXY_SLICED_IND_SIZE(nsel, 0), "seq_only_granted_lines");
+    V_ASSERT(nl == nsel && nr == 0 && be32(m) == 24 + 64 * nsel && C19.sent[s].len_asked == 24 + 64 * nsel && C19.sent[s].ret == (int32_t) (24 + 64 * nsel), "seq_only_granted_lines");
     V_REACH("delivered");
+    if (nsel > 0 && nsel < W_MAXLINES) V_REACH("filtered");
   }
   SQ_np[c] = 0;
 }
 
 static void sq_disconnect(unsigned c)
 {
-  PROXY_CLNT *a = W_cl[c];
+  PROXY_CLNT *a = W_cl[c], *prev = NULL; unsigned i, s0 = C19.send_calls;
   if (!SQ_conn[c]) return;
+  for (i = 0; i < c; i++) if (SQ_conn[i]) prev = W_cl[i];
   vbi_proxyd_close(a, FALSE);
-  if (proxy.clnt_count > 0) proxy.clnt_count -= 1;                       /* proxyd.c:2516-2544, without the service re-computation */
-  if (c == 0) proxy.p_clnts = a->p_next; else W_cl[0]->p_next = a->p_next;
-  if (c == 0 && !SQ_conn[1]) proxy.p_clnts = NULL;
-  free(a);
+  /* ---- proxyd.c:2520-2547 ---- */
+  { unsigned int clnt_services = a->all_services; int dev_idx = a->dev_idx;
+    if (proxy.clnt_count > 0) proxy.clnt_count -= 1;
+    pthread_mutex_lock(&proxy.clnt_mutex);
+    if (prev == NULL) proxy.p_clnts = a->p_next; else prev->p_next = a->p_next;
+    pthread_mutex_unlock(&proxy.clnt_mutex);
+    if (clnt_services != 0) vbi_proxyd_update_services(dev_idx, NULL, 0, NULL);
+    if (proxy.dev[dev_idx].p_capture != NULL) vbi_proxyd_channel_update(dev_idx, NULL, FALSE);
+    free(a);
+  }
   W_gone[c] = 1; SQ_conn[c] = 0; SQ_np[c] = 0;
+  if (proxy.dev[0].p_capture == NULL) { sq_drop_all(); V_REACH("device_closed"); }
+  V_ASSERT(C19.send_calls == s0, "seq_disconnect_sends_nothing");
+}
+
+static void sq_service_req(unsigned c)
+{
+  PROXY_CLNT *a = W_cl[c]; vbi_bool taken; unsigned s0 = C19.send_calls;
+  if (!SQ_conn[c]) return;
+  V_ASSERT(vbi_proxy_msg_is_idle(&a->io), "seq_schedule_request_on_idle_connection");      /* schedule error otherwise: a W event must flush the last reply first */
+  memset(&a->msg_buf, 0, sizeof(VBIPROXY_MSG_HEADER) + sizeof(VBIPROXY_SERVICE_REQ));
+  a->msg_buf.head.type = MSG_TYPE_SERVICE_REQ; a->msg_buf.head.len = sizeof(VBIPROXY_MSG_HEADER) + sizeof(VBIPROXY_SERVICE_REQ);
+  a->msg_buf.body.service_req.reset = 1; a->msg_buf.body.service_req.commit = 1; a->msg_buf.body.service_req.strict = 0;
+  a->msg_buf.body.service_req.services = SREQ;
+  taken = vbi_proxyd_take_message(a, &a->msg_buf);
+  V_ASSERT(taken && a->state == REQ_STATE_FORWARD && a->p_sliced == NULL, "seq_service_req_taken");
+  V_ASSERT((a->all_services & ~(unsigned) SREQ) == 0, "seq_service_grant_subset");
+  SQ_np[c] = 0;                                           /* frames still queued for the client that changes its services may be dropped */
+  if (proxy.dev[0].p_capture == NULL) { sq_drop_all(); V_REACH("device_closed"); }
+  V_ASSERT(C19.send_calls == s0, "seq_request_sends_nothing_yet");
 }
 
 static void sq_event(int e)
 {
-  if (e == 1) sq_capture(); else if (e == 2) sq_writable(0); else if (e == 3) sq_writable(1);
+  unsigned c;
+  if (e == 0) return;
+  if (e == 1) sq_capture(1); else if (e == 9) sq_capture(0);
+  else if (e == 2) sq_writable(0); else if (e == 3) sq_writable(1); else if (e == 8) sq_writable(2);
   else if (e == 4) sq_disconnect(0); else if (e == 5) sq_disconnect(1);
-  V_ASSERT(inv_queue(), "seq_inv_queue");
+  else if (e == 6) sq_service_req(0); else if (e == 7) sq_service_req(1);
+  V_ASSERT(inv18(), "seq_inv_queue");
+  V_ASSERT(c19_locks_held() == 0, "seq_no_lock_left_held");
+  /* shadow and daemon agree on who has something pending */
+  for (c = 0; c < NCL; c++) if (SQ_conn[c]) V_ASSERT((W_cl[c]->p_sliced != NULL) == (SQ_np[c] > 0), "seq_pending_agrees_with_shadow");
 }
 
 V_HARNESS(h_seq)
 {
-  unsigned i;
+  unsigned i; static const unsigned svc[3] = { SVC0, SVC1, SVC2 }; PROXY_DEV *d = &proxy.dev[0];
   V_INIT();
   w_init();
-  for (i = 0; i < C19_NIO; i++) C19.send_ret[i] = 0x7fffffff;              /* sockets take everything that is written */
+  for (i = 0; i < C19_NIO; i++) { C19.send_ret[i] = 0x7fffffff; C19.send_err[i] = 0; }    /* sockets take everything that is written */
+  for (i = 0; i < C19_NUPD; i++) { C19.grant_mask[i] = ((REVOKE >> i) & 1) ? 0 : 0xffffffffu; C19.grant_err[i] = 0; }
+  C19.dec_scanning = 625; C19.cap_fd = 9; C19.cap_scanning = 625; C19.open_v4l2_ok = 1; C19.has_decoder = 1; C19.ioctl_ret = 0;
   w_device(1);
-  V_ASSUME(!VBI_RAW_SERVICES(proxy.dev[0].all_services));
-  for (i = 0; i < 2; i++) {
-    PROXY_CLNT *c = w_client(0, 0);
-    c->state = REQ_STATE_FORWARD; c->io.writeLen = 0; c->io.pWriteBuf = NULL; c->io.sock_fd = 10 + (int) i;
-    c->chn_state.token_state = REQ_TOKEN_NONE; c->chn_status_ind = VBI_PROXY_CHN_NONE;
-    c->all_services &= ~(unsigned) (VBI_SLICED_VBI_625 | VBI_SLICED_VBI_525);
-    c->vbi_count[0] = W_MAXLINES; c->vbi_count[1] = 0;
-    SQ_conn[i] = 1;
+  d->scanning = 625; d->chn_prio = VBI_CHN_PRIO_INTERACTIVE; d->vbi_api = VBI_API_V4L2; d->all_services = 0; d->vbi_fd = 9;
+  for (i = 0; i < NCL; i++) {
+    /* a connection as CONNECT_REQ(services at strict 0) left it: everything that selects a path is concrete */
+    PROXY_CLNT *c = calloc(1, sizeof *c);
+    c->state = REQ_STATE_FORWARD; c->io.sock_fd = 10 + (int) i; c->io.lastIoTime = (time_t) in_u32();
+    c->dev_idx = 0; c->services[0 - VBI_MIN_STRICT] = svc[i]; c->all_services = svc[i];
+    c->vbi_start[0] = 7; c->vbi_count[0] = 1; c->vbi_start[1] = 320; c->vbi_count[1] = W_MAXLINES - 1;
+    c->buffer_count = W_CLBUF; c->chn_prio = DEFAULT_CHN_PRIO;
+    d->all_services |= svc[i];
+    W_cl[W_ncl++] = c; SQ_conn[i] = 1;
   }
   w_link();
   w_queue();                                                                /* NQ = 0: nothing queued, all buffers free */
-  sq_event(E0); sq_event(E1); sq_event(E2); sq_event(E3);
+  sq_event(E0); sq_event(E1); sq_event(E2); sq_event(E3); sq_event(E4); sq_event(E5); sq_event(E6); sq_event(E7);
   V_END();
 }
